@@ -56,9 +56,8 @@ class SortChecker:
             s = {x for x in sorts if x is not None}
             if len(s) > 1:
                 self.issue("local-width", f"local {name} is stored with sorts {sorted(s)}")
-        for name in self.local_reads:
-            if name not in self.locals:
-                self.issue("local-unset", f"local {name} is read but never set")
+        # (a local that is read but never set is not reported here: the C text itself may read an uninitialised
+        #  variable; reads of never-written temporaries on an executed path are caught dynamically by C06)
         return self.issues
 
     # -------------------------------------------------------------- helpers
